@@ -630,6 +630,36 @@ pub fn special_file_inputs(out: &mut Out) {
 					}
 				}
 			}
+			// symbolic links to regular files (the link's own size is the length of
+			// its target PATH, not of the file): relative, absolute, and a link to a link
+			{
+				let body = b"{\"long\": [1, 2, 3, 4, 5, 6, 7, 8, 9, 10], \"tail\": \"zzzzzzzzzzzzzzzzzzzzzzzzzzzzzzzzzzzzzzzzzzzzzzzz\"}\n[\"second document\"]\n";
+				let _ = std::fs::write(format!("{dir}/t.json"), body);
+				let _ = std::fs::remove_file(format!("{dir}/rel.json"));
+				let _ = std::fs::remove_file(format!("{dir}/abs.json"));
+				let _ = std::fs::remove_file(format!("{dir}/hop"));
+				let _ = std::os::unix::fs::symlink("t.json", format!("{dir}/rel.json"));
+				let _ = std::os::unix::fs::symlink(format!("{dir}/t.json"), format!("{dir}/abs.json"));
+				let _ = std::os::unix::fs::symlink("rel.json", format!("{dir}/hop"));
+				let lib = translate(body, &Supply::Slice, Some(Fmt::Json), to);
+				for (name, explicit) in [("rel.json", false), ("abs.json", false), ("hop", true), ("hop", false), ("rel.json", true)] {
+					let mut args: Vec<OsString> = vec![format!("-t{}", to.letter()).into()];
+					if explicit {
+						args.push("-fj".into());
+					}
+					args.push(name.into());
+					if let Some((code, so, se)) = run_os(&bin, &dir, &args, None) {
+						out.eval("special_file_inputs", &format!("symlink {name} {explicit} {}", to.name()), lib.ok());
+						if lib.ok() && !(code == Some(0) && so == lib.output && se.is_empty()) {
+							out.fail(
+								"special_file_inputs",
+								"",
+								format!("xt -t{}{} {name} (a symbolic link to a {}-byte JSON file): exit {:?}, stdout {}, stderr {:?}; the library on the file's bytes writes {}", to.letter(), if explicit { " -fj" } else { "" }, body.len(), code, hex(&so), String::from_utf8_lossy(&se), hex(&lib.output)),
+							);
+						}
+					}
+				}
+			}
 			// a truly empty regular file stays what it is for every explicit format
 			for f in [Fmt::Json, Fmt::Yaml, Fmt::Msgpack, Fmt::Toml] {
 				let args: Vec<OsString> = vec![format!("-t{}", to.letter()).into(), format!("-f{}", f.letter()).into(), "empty.json".into()];
@@ -638,6 +668,58 @@ pub fn special_file_inputs(out: &mut Out) {
 					out.eval("special_file_inputs", &format!("empty {} {}", f.name(), to.name()), true);
 					if (lib.ok() && !(code == Some(0) && so == lib.output)) || (!lib.ok() && code != Some(1)) {
 						out.fail("special_file_inputs", "", format!("xt -t{} -f{} on an empty regular file: exit {:?}, stdout {}; the library gives {}", to.letter(), f.letter(), code, hex(&so), lib.describe()));
+					}
+				}
+			}
+		}
+	}
+	let _ = std::fs::remove_dir_all(&dir);
+}
+
+/// C16: the reader of standard output is gone before xt writes — whatever route
+/// the input takes (a file operand, `-`, or no operand at all = standard input)
+/// and however small the output, xt dies of SIGPIPE without a message.
+pub fn c16_consumer_gone_routes(out: &mut Out) {
+	let dir = procs::scratch_dir("c16r");
+	let small = format!("{dir}/small.json");
+	std::fs::write(&small, b"{\"a\": [1, 2, 3]}\n").expect("write");
+	let big = format!("{dir}/big.json");
+	std::fs::write(&big, format!("{{\"rows\": [{}]}}\n", (0..30_000).map(|i| i.to_string()).collect::<Vec<_>>().join(", "))).expect("write");
+	for (_, bin) in bins() {
+		for to in ALL_FMTS {
+			for path in [&small, &big] {
+				for route in ["operand", "dash", "implicit-stdin", "implicit-stdin-detect"] {
+					let mut args = vec![format!("-t{}", to.letter())];
+					let stdin = match route {
+						"operand" => {
+							args.push(path.clone());
+							None
+						}
+						"dash" => {
+							args.push("-fj".into());
+							args.push("-".into());
+							Some(std::fs::File::open(path).expect("open"))
+						}
+						"implicit-stdin" => {
+							args.push("-fj".into());
+							Some(std::fs::File::open(path).expect("open"))
+						}
+						_ => Some(std::fs::File::open(path).expect("open")),
+					};
+					let r = procs::run_io(&bin, &args, stdin, Sink::ClosedPipe, Duration::from_secs(30));
+					out.eval("consumer_gone_every_route", &format!("{}{route}{}", to.name(), path.len()), true);
+					if r.status != Status::Signal(13) || !r.stderr.is_empty() {
+						out.fail(
+							"consumer_gone_every_route",
+							"",
+							format!(
+								"xt {} (input by {route}, {} bytes of JSON) with the reader of stdout gone: wait status {:?}, stderr {:?} — expected death by SIGPIPE and empty stderr",
+								args.join(" "),
+								std::fs::metadata(path).map(|m| m.len()).unwrap_or(0),
+								r.status,
+								String::from_utf8_lossy(&r.stderr)
+							),
+						);
 					}
 				}
 			}
